@@ -123,12 +123,29 @@ func (nullSafeComparisonPatcher) Visit(node *ast.Node) {
 			fn, ok = nullSafeArithmeticFuncs[n.Operator]
 		}
 		if !ok {
+			// a NULL (non-boolean) operand of AND/OR is unknown, not a failure:
+			// TRUE OR NULL is TRUE, FALSE AND NULL is FALSE
+			switch n.Operator {
+			case "||", "or":
+				fn, ok = "__sql_or", true
+			case "&&", "and":
+				fn, ok = "__sql_and", true
+			}
+		}
+		if !ok {
 			return
 		}
 		ast.Patch(node, &ast.CallNode{
 			Callee:    &ast.IdentifierNode{Value: fn},
 			Arguments: []ast.Node{n.Left, n.Right},
 		})
+	case *ast.UnaryNode:
+		if n.Operator == "!" || n.Operator == "not" {
+			ast.Patch(node, &ast.CallNode{
+				Callee:    &ast.IdentifierNode{Value: "__sql_not"},
+				Arguments: []ast.Node{n.Node},
+			})
+		}
 	case *ast.MemberNode:
 		// a.b / a[0] on a NULL, missing or scalar parent is NULL, not a failure
 		if n.Method {
@@ -207,6 +224,48 @@ func nullSafeComparisonOptions() []expr.Option {
 			return out, nil
 		}, new(func(any, any) any)))
 	}
+	truth := func(v any) (val, known bool) {
+		b, ok := v.(bool)
+		return b, ok
+	}
+	opts = append(opts,
+		expr.Function("__sql_or", func(params ...any) (any, error) {
+			if len(params) != 2 {
+				return nil, nil
+			}
+			a, ak := truth(params[0])
+			b, bk := truth(params[1])
+			switch {
+			case (ak && a) || (bk && b):
+				return true, nil
+			case ak && bk:
+				return false, nil
+			}
+			return nil, nil
+		}, new(func(any, any) any)),
+		expr.Function("__sql_and", func(params ...any) (any, error) {
+			if len(params) != 2 {
+				return nil, nil
+			}
+			a, ak := truth(params[0])
+			b, bk := truth(params[1])
+			switch {
+			case (ak && !a) || (bk && !b):
+				return false, nil
+			case ak && bk:
+				return true, nil
+			}
+			return nil, nil
+		}, new(func(any, any) any)),
+		expr.Function("__sql_not", func(params ...any) (any, error) {
+			if len(params) == 1 {
+				if a, ok := truth(params[0]); ok {
+					return !a, nil
+				}
+			}
+			return nil, nil
+		}, new(func(any) any)),
+	)
 	opts = append(opts, expr.Function("__member_or_nil", func(params ...any) (res any, err error) {
 		if len(params) != 2 || isNilValue(params[0]) {
 			return nil, nil
